@@ -78,7 +78,7 @@ static void foreign_resumer() { void* p; while (!(p = g_sp[0].load())) cosched::
 int main(int argc, char** argv) {
     if (argc < 6) return 2;
     TR.open(argv[1]); std::string sc = argv[2]; int nseeds = atoi(argv[3]); unsigned long seed0 = strtoul(argv[4], nullptr, 10); int N = atoi(argv[5]);
-    long paths = 0, steps = 0, stuck = 0; vh::Timer tm; static const int dens[4] = {1, 3, 10, 40};
+    long paths = 0, steps = 0, stuck = 0; vh::Timer tm; static const int dens[8] = {1, 3, 10, 40, -1, -2, -3, -5};
     std::vector<std::pair<std::string, std::function<void()>>> all = {{"nested", sc_nested}, {"fanout", sc_fanout}, {"enqueue", sc_enqueue}, {"isolate", sc_isolate},
         {"suspend0", [] { sc_suspend(0); }}, {"suspend1", [] { sc_suspend(1); }}, {"suspend2", sc_suspend2}, {"suspendF", sc_suspendF}};
     for (int s = 0; s < nseeds; s++) for (auto& kv : all) {
@@ -86,7 +86,7 @@ int main(int argc, char** argv) {
         if (N == 1 && (kv.first == "suspend0" || kv.first == "suspend2")) continue;   // a task that spin-waits for another task needs a second thread
         TR.begin_exec(); memset(g_written, 0, sizeof g_written); for (auto& x : g_sp) vh::rawstore(x, (void*)nullptr);
         TR.emit("{\"e\":\"Scenario\",\"name\":\"%s\",\"threads\":%d}", kv.first.c_str(), N);
-        Result r = run_in_arena(N, seed0 + s * 7919 + paths, dens[s % 4], 30000000, [&] { kv.second(); TR.emit("{\"e\":\"Quiesce\"}"); }, true,
+        Result r = run_in_arena(N, seed0 + s * 7919 + paths, dens[s % 8], 30000000, [&] { kv.second(); TR.emit("{\"e\":\"Quiesce\"}"); }, true,
                                 kv.first == "suspendF" ? std::function<void()>(foreign_resumer) : std::function<void()>()); ++paths; steps += r.steps; if (r.rc) ++stuck;
     }
     TR.close();
